@@ -15,6 +15,7 @@ pub mod c11;
 pub mod c12;
 pub mod c13;
 pub mod c14;
+pub mod c15;
 pub mod c16;
 pub mod c17;
 
@@ -37,6 +38,7 @@ pub fn run(id: &str, ctx: &Ctx) -> i32 {
         "C12" => c12::run(ctx),
         "C13" => c13::run(ctx),
         "C14" => c14::run(ctx),
+        "C15" => c15::run(ctx),
         "C16" => c16::run(ctx),
         "C17" => c17::run(ctx),
         _ => { eprintln!("unknown property {id}"); 2 }
@@ -61,6 +63,7 @@ pub fn replay(id: &str, path: &str) -> i32 {
         "C12" => c12::replay(&v),
         "C13" => c13::replay(&v),
         "C14" => c14::replay(&v),
+        "C15" => c15::replay(&v),
         "C16" => c16::replay(&v),
         "C17" => c17::replay(&v),
         _ => { eprintln!("unknown property {id}"); 2 }
